@@ -74,7 +74,7 @@ func c19Events(nlive int) []c19ev {
 			return len(w.live) - 1, [][]int{sh}, true
 		}}
 	}
-	evs = append(evs, newT("(2,3)", []int{2, 3}), newT("(3)", []int{3}), newT("(2,2,2)", []int{2, 2, 2}), newT("(3,2)", []int{3, 2}), newT("(1)", []int{1}))
+	evs = append(evs, newT("(2,3)", []int{2, 3}), newT("(3)", []int{3}), newT("(2,2,2)", []int{2, 2, 2}), newT("(3,2)", []int{3, 2}), newT("(1)", []int{1}), newT("(2,2)", []int{2, 2}))
 	evs = append(evs, c19ev{"NewScalar", func(w *c19world) (int, [][]int, bool) {
 		if len(w.live) >= 3 {
 			return -1, nil, false
@@ -340,6 +340,28 @@ func c19Events(nlive int) []c19ev {
 				}
 				return -1, nil, true
 			})
+			if i != j {
+				// destinations in whatever state they are (lazily transposed, views): the destination may change, nothing else
+				bin("ApplyReuse", func(w *c19world, a, b *tensor.Dense) (int, [][]int, bool) {
+					if a.Size() != b.Size() {
+						return -1, nil, false
+					}
+					a.Apply(func(x float64) float64 { return x + 1 }, tensor.WithReuse(b))
+					return j, nil, true
+				})
+				bin("MatMulReuse", func(w *c19world, a, b *tensor.Dense) (int, [][]int, bool) {
+					if a.Dims() != 2 || b.Size() != a.Shape()[0]*a.Shape()[0] {
+						return -1, nil, false
+					}
+					ones := make([]float64, a.Size())
+					for k := range ones {
+						ones[k] = 1
+					}
+					o := tensor.New(tensor.WithShape(a.Shape()[1], a.Shape()[0]), tensor.WithBacking(ones))
+					a.MatMul(o, tensor.WithReuse(b))
+					return j, nil, true
+				})
+			}
 			bin("MatMul", func(w *c19world, a, b *tensor.Dense) (int, [][]int, bool) {
 				if a.Dims() != 2 || b.Dims() != 2 || a.Shape()[1] != b.Shape()[0] {
 					return -1, nil, false
